@@ -278,7 +278,13 @@ def agreement(rep, sites):
     w = rep.f(CRN, "_apply_rule_worker") if rep.repo.maybe_func(CRN, "_apply_rule_worker") else None
     if w is not None:
         gl = [n for n in walk_local(w.node) if isinstance(n, (ast.Global, ast.Nonlocal))]
-        rep.ob("O14.3", "R8", w, not gl, gl[0] if gl else "no global state", "the expansion worker is a pure function of its task tuple")
+        from ..rules.provenance import module_memos
+        memos = module_memos(w.module)
+        wl_ = {n.id for n in walk_local(w.node) if isinstance(n, ast.Name) and isinstance(n.ctx, ast.Store)}
+        reads = [n for n in walk_local(w.node) if isinstance(n, ast.Name) and isinstance(n.ctx, ast.Load) and n.id in memos and n.id not in wl_ and n.id not in w.params]
+        rep.ob("O14.3", "R8", w, not gl and not reads, gl[0] if gl else (reads[0] if reads else "no global state"),
+               "the expansion worker is a pure function of its task tuple" + (f" (it reads the process-level container `{reads[0].id}`, which only worker processes "
+                                                                                "fill: serial and parallel runs apply different templates)" if reads else ""))
     # validators: single joblib site each, results consumed positionally
     fi = rep.f(AV, "AAMValidator.validate_smiles")
     for k, c, callee, args, it, tgt, _ in sites[(AV, "AAMValidator.validate_smiles")]:
